@@ -2,6 +2,8 @@ package spec
 
 import (
 	"go/ast"
+	"go/constant"
+	"go/types"
 	"strings"
 
 	"lndlint/internal/an"
@@ -55,6 +57,22 @@ func runC10d(r *an.Run) {
 			if !okForm {
 				o.FailAt(f.ID+"#min-form", f.Where(f.Body.Pos()), "the lower bound is no longer set to typ + 1")
 			}
+			// NewStream: the records of a stream are strictly increasing
+			ns := p.Func("tlv.NewStream")
+			nmin := 0
+			for _, s := range ns.Assigns(an.LocalNamed("min"), false) {
+				as := s.Node.(*ast.AssignStmt)
+				if as.Tok.String() == ":=" || !strings.HasSuffix(an.Text(as.Rhs[0]), ".typ + 1") {
+					continue
+				}
+				nmin++
+				guarded(o, ns, s, an.Truth(an.LocalNamed("overflow"), false, "!overflow"))
+				guarded(o, ns, s, an.Cmp(an.FieldPath(nil, "typ"), an.GE, an.LocalNamed("min"), "record.typ >= min"))
+			}
+			if nmin != 1 {
+				o.FailAt(ns.ID+"#min", ns.Where(ns.Body.Pos()), "NewStream advances its lower bound at %d sites, expected one (min = record.typ + 1)", nmin)
+			}
+			everyIteration(o, ns, `^\$p0$`, ns.Assigns(an.LocalNamed("min"), false), "min = record.typ + 1")
 			for _, name := range []string{"Decode", "DecodeP2P", "DecodeWithParsedTypes", "DecodeWithParsedTypesP2P"} {
 				g := p.Func("tlv.Stream." + name)
 				cs := g.Calls(an.CalleeIs("tlv.Stream.decode"), false)
@@ -127,6 +145,10 @@ func runC10d(r *an.Run) {
 					continue
 				}
 				guardedAll(o, f, reads, an.CmpX(an.Param(3), an.EQ, an.IntConst(size), "l == "+itoa(int(size))))
+				// the bytes read are exactly that size
+				if n, ok := staticSliceLen(f, callArg(reads[0], 1)); !ok || n != size {
+					o.FailAt(f.ID+"#read-size", reads[0].Where(), "%s reads %s (%d bytes, known=%v) for a record whose length was checked to be %d", name, an.Text(callArg(reads[0], 1)), n, ok, size)
+				}
 			}
 			for name, size := range map[string]int64{"DTUint16": 2, "DTUint32": 4, "DTUint64": 8} {
 				f := p.Func("tlv." + name)
@@ -135,6 +157,31 @@ func runC10d(r *an.Run) {
 					continue
 				}
 				guardedAll(o, f, reads, an.CmpX(an.Param(3), an.LE, an.IntConst(size), "l <= "+itoa(int(size))))
+				// the l low-order bytes of the buffer are filled: buf[size-l:size]
+				if se, ok := ast.Unparen(callArg(reads[0], 1)).(*ast.SliceExpr); ok {
+					lo := ""
+					if se.Low != nil {
+						lo = f.Canon(se.Low)
+					}
+					hi, hiOK := int64(0), false
+					if se.High != nil {
+						if v, ok := f.Info().Types[se.High]; ok && v.Value != nil {
+							hi, hiOK = constInt64(v.Value)
+						}
+					} else if at, ok := f.Info().TypeOf(se.X).Underlying().(*types.Array); ok {
+						hi, hiOK = at.Len(), true
+					} else if pt, ok := f.Info().TypeOf(se.X).Underlying().(*types.Pointer); ok {
+						if at, ok := pt.Elem().Underlying().(*types.Array); ok {
+							hi, hiOK = at.Len(), true
+						}
+					}
+					o.Site("%s reads into [%s : %d]", name, lo, hi)
+					if lo != "("+itoa(int(size))+" - $p3)" || !hiOK || hi != size {
+						o.FailAt(f.ID+"#read-window", reads[0].Where(), "%s reads into %s, expected buf[%d-l:%d]", name, an.Text(se), size, size)
+					}
+				} else {
+					o.FailAt(f.ID+"#read-window", reads[0].Where(), "%s reads into %s", name, an.Text(callArg(reads[0], 1)))
+				}
 				// success only after the minimality check
 				var succ []an.Site
 				for _, s := range f.StrictSuccessReturns() {
@@ -195,4 +242,42 @@ func runC10d(r *an.Run) {
 				}
 			}
 		})
+}
+
+// staticSliceLen returns the statically known length of a slice expression
+// over an array (or pointer to array): x[:], x[:N], x[A:B] with constant
+// bounds; also a dereferenced pointer to a slice is not known.
+func staticSliceLen(f *an.Func, e ast.Expr) (int64, bool) {
+	se, ok := ast.Unparen(e).(*ast.SliceExpr)
+	if !ok {
+		return 0, false
+	}
+	lo := int64(0)
+	if se.Low != nil {
+		v, ok := f.Info().Types[se.Low]
+		if !ok || v.Value == nil {
+			return 0, false
+		}
+		lo, _ = constInt64(v.Value)
+	}
+	if se.High != nil {
+		v, ok := f.Info().Types[se.High]
+		if !ok || v.Value == nil {
+			return 0, false
+		}
+		hi, _ := constInt64(v.Value)
+		return hi - lo, true
+	}
+	t := f.Info().TypeOf(se.X).Underlying()
+	if pt, ok := t.(*types.Pointer); ok {
+		t = pt.Elem().Underlying()
+	}
+	if at, ok := t.(*types.Array); ok {
+		return at.Len() - lo, true
+	}
+	return 0, false
+}
+
+func constInt64(v constant.Value) (int64, bool) {
+	return constant.Int64Val(constant.ToInt(v))
 }
